@@ -137,8 +137,30 @@ def run(ctx, report):
     report.check(ok, "R-MUSTRAISE", (fn, r), "a non-empty offender message raises before anything is returned",
                  {"guard": src(guard.test) if guard is not None else None}, "3")
     # the message is built from every key of the accumulator with a non-empty list
-    mloops = [n for n in walk_no_nested(fn.node) if isinstance(n, ast.For) and src(n.iter) in (acc, f"{acc}.keys()",
-                                                                                               f"{acc}.items()", f"sorted({acc})")]
+    # (the message may be assembled by a helper that receives the accumulator)
+    scope, acc2, msg2 = fn, acc, msgvar
+    if msgvar is not None:
+        from ..core.astutil import resolve_callee
+        defs = [n for n in walk_no_nested(fn.node) if isinstance(n, ast.Assign) and len(n.targets) == 1
+                and src(n.targets[0]) == msgvar]
+        if len(defs) == 1 and isinstance(defs[0].value, ast.Call):
+            h = resolve_callee(ctx.index, fn, defs[0].value)
+            argsrc = [src(a) for a in defs[0].value.args]
+            if h is not None and acc in argsrc:
+                ps = [a.arg for a in h.node.args.posonlyargs + h.node.args.args]
+                if h.kind in ("method", "classmethod"):
+                    ps = ps[1:]
+                rets = [n.value for n in walk_no_nested(h.node) if isinstance(n, ast.Return) and n.value is not None]
+                if len(rets) != 1 or not isinstance(rets[0], ast.Name):
+                    raise AnalysisError(f"{h.qualname}: message helper does not return a single name")
+                scope, acc2, msg2 = h, ps[argsrc.index(acc)], rets[0].id
+                report.covered(h)
+    acc_, msgvar_ = acc, msgvar
+    acc, msgvar = acc2, msg2
+    mloops = [n for n in walk_no_nested(scope.node) if isinstance(n, ast.For) and src(n.iter) in (acc, f"{acc}.keys()",
+                                                                                                  f"{acc}.items()", f"sorted({acc})")]
+    if not mloops:
+        raise AnalysisError("SCCReader.read: the loop assembling the offender message was not found")
     ok = len(mloops) == 1 and msgvar is not None and any(isinstance(x, ast.AugAssign) and src(x.target) == msgvar
                                                          for x in walk_no_nested(mloops[0]))
     inner_tests = [src(n.test) for n in walk_no_nested(mloops[0]) if isinstance(n, ast.If)] if mloops else []
